@@ -26,9 +26,11 @@ from asphalt.core import (
     Component,
     ComponentStartError,
     Context,
+    Event,
     NoCurrentContext,
     ResourceConflict,
     ResourceNotFound,
+    Signal,
     add_resource,
     add_resource_factory,
     add_teardown_callback,
@@ -43,6 +45,10 @@ from asphalt.core import (
 from ..core import Sim, run_sim
 from . import compreg
 from .common import DTS, SimError, SimLookup, contains_cancel, is_cancel, pick, rpause
+
+
+class _Owner:
+    sig = Signal(Event)
 
 
 class SimTimeout(TimeoutError):
@@ -435,6 +441,14 @@ class H:
                         wtg.start_soon(self.wait, w, path, phase, name=f"w:{path}:{w['wid']}")
             elif op == "burst":
                 self.burst(a[1], path)
+            elif op == "flood":
+                # scale knob: hundreds of unrelated, live signal owners come into being (and
+                # use their signals) while components are parked waiting
+                for _ in range(a[1]["n"]):
+                    o = _Owner()
+                    o.sig  # noqa: B018
+                    self.keep.append(o)
+                sim.log("flood", path=path, n=a[1]["n"])
             elif op == "td":
                 self.td(a[1], path)
             elif op == "svc":
@@ -958,6 +972,8 @@ def make_main(plan: dict):
                     raise
             else:
                 sim.log("ctx_exit", exc=None, round=rnd)
+        if plan.get("ccprobe"):
+            await cc_probe(sim)
         sizes = sorted({str(w.message).split("(")[1].split(")")[0] for w in wlist if "Queue full (" in str(w.message)})
         if plan.get("noisy_listener") is not None:
             # the deliberately tiny queue of the extra listener overflows by design
@@ -967,6 +983,34 @@ def make_main(plan: dict):
         _wctx.__exit__(None, None, None)
 
     return main
+
+
+class _ProbeComp(Component):
+    seen: list = []
+
+    async def start(self) -> None:
+        _ProbeComp.seen.append(Context().parent)
+
+
+async def cc_probe(sim: Sim) -> None:
+    """Request-per-context style: the same small component is started in one short-lived
+    host context after the other.  The component contexts of earlier rounds are garbage by
+    then and their addresses get re-used; a context created in start() still has the host
+    of *its* round as parent.  (Only the verdict is logged: which round re-uses which
+    address is the allocator's business.)"""
+    import gc
+
+    ok = True
+    for _ in range(40):
+        async with Context() as host:
+            _ProbeComp.seen = []
+            await start_component(_ProbeComp)
+            if len(_ProbeComp.seen) != 1 or _ProbeComp.seen[0] is not host:
+                ok = False
+        del host
+        _ProbeComp.seen = []
+        gc.collect(0)
+    sim.log("ccprobe", ok=ok)
 
 
 class _Logged:
@@ -1184,7 +1228,7 @@ def oracle(sim: Sim, plan: dict) -> list[dict]:
         return V
     if sim.deadlock:
         for p in ("C05", "C06", "C07", "C14"):
-            v(f"{p}.deadlock", "deadlock" if not (p == "C06" and (_lost_key(plan) == "burst>50" or _overflow50(sim))) else "burst>50", "run deadlocked: a component waited forever although the plan's dependencies are acyclic")
+            v(f"{p}.deadlock", "deadlock" if not (p == "C06" and _overflow50(sim)) else "burst>50", "run deadlocked: a component waited forever although the plan's dependencies are acyclic")
         return V
 
     oplan = plan
@@ -1389,7 +1433,7 @@ def oracle(sim: Sim, plan: dict) -> list[dict]:
                 rule = "C07.timeout" if key == "spurious_timeout" else "C05.complete"
                 v(rule, key, f"start-up should complete at t0+{finish} (timeout {tau}) but start_component gave {sc_end[4]} {sc_end[5]}")
                 if key != "spurious_timeout":
-                    v("C06.lost_wakeup", _lost_key(plan), f"start-up of an acyclic plan failed: {sc_end[5]}")
+                    v("C06.lost_wakeup", _lost_key(sim), f"start-up of an acyclic plan failed: {sc_end[5]}")
             elif abs((sc_end[5]["t"] - t0) - finish) > 1e-9:
                 late = sc_end[5]["t"] - t0 > finish
                 v(
@@ -1404,7 +1448,7 @@ def oracle(sim: Sim, plan: dict) -> list[dict]:
         elif expect == "complete":
             if sc_end[4] != "sc_return":
                 v("C05.complete", "unexpected_failure", f"start-up of an acyclic plan failed: {sc_end[5]}")
-                v("C06.lost_wakeup", _lost_key(plan), f"start-up of an acyclic plan failed: {sc_end[5]}")
+                v("C06.lost_wakeup", _lost_key(sim), f"start-up of an acyclic plan failed: {sc_end[5]}")
         elif expect == "timeout":
             if sc_end[4] != "sc_raise" or sc_end[5].get("cls") != "TimeoutError":
                 v("C07.timeout", "not_raised", f"start-up cannot finish before the timeout ({tau}) but start_component gave {sc_end[4]} {sc_end[5]}")
@@ -1601,7 +1645,7 @@ def oracle(sim: Sim, plan: dict) -> list[dict]:
         if sc_end[4] == "sc_raise" and sc_end[5].get("cls") == "TimeoutError" and expect in ("return",):
             for wid, w in pend.items():
                 if w["pub"] is not None and not w["opt"]:
-                    v("C06.lost_wakeup", _lost_key(plan), f"{w['path']}: get_resource({w['type']},{w['name']!r}) never returned although the resource was published")
+                    v("C06.lost_wakeup", _lost_key(sim), f"{w['path']}: get_resource({w['type']},{w['name']!r}) never returned although the resource was published")
         for r in tr:
             if r[4] == "plain_missing":
                 if r[5]["out"] != "notfound" or not r[5]["same_step"]:
@@ -1735,11 +1779,14 @@ def oracle(sim: Sim, plan: dict) -> list[dict]:
                     v("C02.component_parent", "snapshot", f"Context() created in {d['phase']}() of {d['path']} does not see what the calling context holds: {d['diff']}")
                 if not d["inside"] or not d["restored"]:
                     v("C12.current", "component_phase", f"current_context() around a nested context in {d['path']}: {d}")
-    overflow = [r for r in sim.trace if r[4] == "queue_overflow"]
-    if _lost_key(plan) == "burst>50" or (overflow and all(r[5]["sizes"] == ["50"] for r in overflow)):
-        # plans with a burst of more than 50 decoys in one step exercise the overflow of a
-        # waiting component's 50-slot queue (known finding): lost, late and never-delivered
-        # wake-ups of such plans are keyed so that exactly this cause can be recognised
+    for r in sim.trace:
+        if r[4] == "ccprobe" and not r[5]["ok"]:
+            v("C12.parent", "component_phase@recycled_component_context", "a context created in start() of a component, started in a fresh host context after many earlier start-ups in other (closed) host contexts, did not get its own host context as parent")
+    if _overflow50(sim):
+        # runs in which a waiting component's 50-slot queue (and no other queue) really
+        # overflowed (known finding: more than 50 publications in one step): lost, late and
+        # never-delivered wake-ups of such runs are keyed so that exactly this cause can be
+        # recognised
         for x in V:
             if x["rule"] in ("C06.lost_wakeup", "C06.late_wakeup", "C06.deadlock"):
                 x["key"] = "burst>50"
@@ -1764,14 +1811,8 @@ def _overflow50(sim: Sim) -> bool:
     return sizes == {"50"}
 
 
-def _lost_key(plan: dict) -> str:
-    big = 0
-    for _p, n in walk(plan["tree"]):
-        for ph in ("prepare", "start"):
-            for a in n.get(ph) or ():
-                if a[0] == "burst":
-                    big = max(big, a[1]["n"])
-    return "burst>50" if big > 50 else "lost"
+def _lost_key(sim: Sim) -> str:
+    return "burst>50" if _overflow50(sim) else "lost"
 
 
 def _find_pub(n: dict, rid: str) -> Any:
@@ -2008,6 +2049,14 @@ class G:
                         acts.append(["p", rng.choice((0, 1, 2, 3)), rng.choice((0.0, 0.25, 0.5, 1.0, 2.0))])
                     if not spec.get("fac") and rng.random() < 0.12:
                         acts.append(["conflict_handled", {"rid": spec["rid"], "t": spec["t"], "name": spec["name"]}])
+                    if self.prop == "C06":
+                        rs = rng.random()
+                        if rs < 0.1:
+                            # the awaited publication comes at the end of a long volley of
+                            # decoys made in the very same step
+                            acts.append(["burst", {"n": rng.randint(17, 45), "kind": "name", "t": spec["t"]}])
+                        elif rs < 0.13:
+                            acts.append(["flood", {"n": rng.choice((255, 260, 300, 520))}])
                     acts.append(["pub", spec])
                     fn = final_name(n, spec, phase)
                     here.append((spec["t"], fn, bool(spec.get("fac")), spec.get("fdur")))
@@ -2078,14 +2127,21 @@ def _forward_waits(g: "G", tree: dict, rng: random.Random) -> None:
             n[ph].remove(w)
 
 
-def _wide_tree(g: "G", rng: random.Random) -> dict:
-    """A root with 33-40 direct children (more than any plausible batch size): an early
-    child waits for a resource that one of the last children publishes, so everything only
-    completes if really *all* children are started concurrently."""
-    n = rng.randint(33, 40)
+def _wide_tree(g: "G", rng: random.Random, fail: bool = False) -> dict:
+    """A root with 33-44 direct children (more than any plausible batch or pool size): one
+    early child - or nearly all of them - waits for a resource that one of the last children
+    publishes, so everything only completes if really *all* children are started
+    concurrently.  With `fail`, that last child fails instead of publishing."""
+    many = rng.random() < 0.5
+    n = rng.randint(33, 44)
     root: dict[str, Any] = {"alias": "", "slot": g.slots.pop(), "prepare": None, "start": [], "children": []}
-    pub_idx = rng.randint(n - 4, n - 1)
-    wait_idx = rng.randint(0, 3)
+    if many:
+        k = rng.randint(32, n - 1)
+        waiters = set(range(k))
+        pub_idx = rng.randint(k, n - 1)
+    else:
+        pub_idx = rng.randint(n - 4, n - 1)
+        waiters = {rng.randint(0, 3)}
     for i in range(n):
         has_p = rng.random() < 0.3
         c: dict[str, Any] = {
@@ -2097,15 +2153,40 @@ def _wide_tree(g: "G", rng: random.Random) -> dict:
             "hard": {"tf": "class", "kw": {}},
             "ext": None,
         }
-        if rng.random() < 0.3:
+        if rng.random() < 0.3 and not many:
             c["start"].append(rpause(rng, 0.5))
         if i == pub_idx:
             c["start"].append(["p", rng.choice((0, 1, 2)), rng.choice((0.0, 0.5, 1.0))])
-            c["start"].append(["pub", {"rid": "r1", "t": 0, "name": "wide"}])
-        if i == wait_idx:
+            if fail:
+                c["start"].append(["fail", rng.choice(("SimError", "SimLookup"))])
+            else:
+                c["start"].append(["pub", {"rid": "r1", "t": 0, "name": "wide"}])
+        if i in waiters:
             g.nw += 1
             c["start"].insert(0, ["wait", {"wid": f"w{g.nw}", "t": 0, "name": "wide"}])
         root["children"].append(c)
+    return root
+
+
+def _deep_tree(g: "G", rng: random.Random) -> dict:
+    """A chain of 8-13 components, each the only child of the one before; the innermost one
+    stalls (usually beyond the timeout)."""
+    depth = rng.randint(8, 13)
+    root: dict[str, Any] = {"alias": "", "slot": g.slots.pop(), "prepare": [] if rng.random() < 0.5 else None, "start": [], "children": []}
+    cur = root
+    for i in range(depth):
+        c: dict[str, Any] = {
+            "alias": f"d{i}",
+            "slot": g.slots.pop(),
+            "prepare": [rpause(rng, 0.3)] if rng.random() < 0.4 else None,
+            "start": [],
+            "children": [],
+            "hard": {"tf": "class", "kw": {}},
+            "ext": None,
+        }
+        cur["children"].append(c)
+        cur = c
+    cur["start"].append(["p", 0, rng.choice((0.5, 2.0, 5.0))])
     return root
 
 
@@ -2175,8 +2256,15 @@ def _add_later_sub(plan: dict, nodes: list, rng: random.Random) -> None:
 def gen(rng: random.Random, tier: str, prop: str) -> dict:
     g = G(rng, tier, prop)
     backend = "asyncio" if rng.random() < 0.6 else "trio"
-    if prop == "C05" and rng.random() < 0.03:
-        tree = _wide_tree(g, rng)
+    special = rng.random()
+    if prop in ("C05", "C07") and special < 0.05:
+        # scale knobs: a very wide or a very deep tree
+        if prop == "C07" and special < 0.02:
+            tree = _deep_tree(g, rng)
+            timeout: Any = rng.choice((0.25, 1.0, 3.0, 20))
+        else:
+            tree = _wide_tree(g, rng, fail=prop == "C07" and rng.random() < 0.5)
+            timeout = rng.choice((None, 50))
         tree["root_kw"] = {}
         tree["root_tf"] = "class"
         return {
@@ -2186,7 +2274,7 @@ def gen(rng: random.Random, tier: str, prop: str) -> dict:
             "backend": backend,
             "sched": {"policy": rng.choice(("uniform", "coin", "prio", "fifo")), "seed": rng.getrandbits(32)},
             "tree": tree,
-            "timeout": rng.choice((None, 50)),
+            "timeout": timeout,
         }
     tree = g.skeleton(0, "")
     tree["root_kw"] = rkw(rng)
@@ -2286,6 +2374,11 @@ def gen(rng: random.Random, tier: str, prop: str) -> dict:
         plan["twice"] = True
     if prop in ("C06", "C05", "C18") and rng.random() < 0.15:
         plan["noisy_listener"] = rng.choice((0, 1, 2))
+    if prop == "C12" and rng.random() < 0.25:
+        plan["ccprobe"] = True
+    if prop == "C07" and "twice" not in plan and rng.random() < 0.08:
+        # the very same configuration object is used for a second attempt (a retry)
+        plan["twice"] = True
     if prop == "C14":
         if rng.random() < 0.35:
             plan["twice"] = True
